@@ -29,7 +29,7 @@ def body(c):
     open(aff, "w").write("INIT Init\nNEXT Next\nCONSTANTS\n  NoZeroHull = FALSE\n  Points <- MCPoints\n  GroupLen = 3\n  GShapes <- MCGShapes\n"
                          + "".join(f"INVARIANT {i}\n" for i in ["HalfStepPerGroup", "ZpFits", "CodesFit"]) + "CHECK_DEADLOCK FALSE\n")
     c.mc("QAff", aff, workers=12, require_actions=["Reduce", "ScaleZp", "Quantize", "Dequant"])
-    tr = c.harness("h_qnum.py", {"mode": "finite", "seed": c.seed, "reps": 2 if c.quick else 12}, timeout=3000)["traces"]
+    tr = c.harness("h_qnum.py", {"mode": "finite", "seed": c.seed, "reps": 2 if c.quick else 40}, timeout=3000)["traces"]
     tr = c.screen(tr, "Trace_QNum", chunk=30, constants=devs)
     res = c.validate("Trace_QNum", tr, chunk=30, constants=devs)
     c.judge(tr, res, describe=lambda t: {k: t[0].get(k) for k in ("kind", "qt", "fmt", "axis", "gs", "shape", "class", "classes")})
